@@ -597,7 +597,15 @@ func (m *Mux) serveGRPC(w http.ResponseWriter, r *http.Request) {
 	herr := hd.handler(&m.opts, stream)
 	if !stream.sentHeader {
 		if err := stream.SendHeader(nil); err != nil {
-			return // ctx canceled
+			// The call's context has ended (deadline passed, client gone)
+			// and the stream refuses every call. A client that is still
+			// there is owed the status all the same: announce the trailers
+			// as SendHeader would have.
+			h := w.Header()
+			h.Set("Content-Type", contentType)
+			h.Add("Trailer", "Grpc-Status")
+			h.Add("Trailer", "Grpc-Message")
+			h.Add("Trailer", "Grpc-Status-Details-Bin")
 		}
 	}
 	flusher.Flush()
